@@ -30,6 +30,20 @@ class BufferFacts:
                         self.storage = d[1]
                     elif const_value(n.value) == 0 and self.cursor is None:
                         self.cursor = d[1]
+        if self.cursor is None and self.storage is not None:
+            # the cursor by its role: the one field the methods advance by one and look up in the storage (it may start at a
+            # constructor argument instead of the literal 0)
+            adv = set()
+            for m in cls.methods.values():
+                if m.name == "__init__" or m.self_name is None:
+                    continue
+                for n in walk_own(m.node):
+                    if isinstance(n, ast.AugAssign) and isinstance(n.op, ast.Add) and const_value(n.value) == 1:
+                        d = dotted(n.target)
+                        if d and len(d) == 2 and d[0] == m.self_name:
+                            adv.add(d[1])
+            if len(adv) == 1:
+                self.cursor = next(iter(adv))
         if self.storage is None or self.cursor is None:
             raise AnalysisError(f"{cls.short}: storage dict / cursor not discoverable from __init__")
 
@@ -413,6 +427,7 @@ def reset_agreement(prog, rep: Report, rule: str, c: Cls, method: str, exempt: D
     f = prog.method(c, method)
     rep.fn(f)
     state_fields = sorted(_mutated_fields(c) & set(init))
+    all_init, mutated_all = dict(init), set(_mutated_fields(c))
     resets = {}
     from ..util import iter_stores
     for t, val, st_ in iter_stores(f.node):
@@ -439,6 +454,13 @@ def reset_agreement(prog, rep: Report, rule: str, c: Cls, method: str, exempt: D
                      f"mutated elsewhere)", scenario=scenario)
         else:
             same = norm(resets[fld]) == norm(init[fld])
+            if not same:
+                # `self._waiting_for = self._start` where _start keeps, unchanged since the constructor, the very value the
+                # constructor gave the state field (`self._start = start; self._waiting_for = start`)
+                dv = dotted(resets[fld])
+                if dv and len(dv) == 2 and dv[0] == f.self_name and dv[1] in all_init and dv[1] not in mutated_all \
+                        and norm(all_init[dv[1]]) == norm(init[fld]):
+                    same = True
             rep.check(rule, f, f"reset:{fld}", same, f"self.{fld} = {src(resets[fld])} as in __init__",
                       f"{method}() sets self.{fld} = {src(resets[fld])}, __init__ sets {src(init[fld])}", scenario=scenario)
 
